@@ -8,4 +8,9 @@ replace (
 	qchen.fun/fatchoy => /repo
 )
 
-require qchen.fun/fatchoy v0.0.0-00010101000000-000000000000
+require (
+	github.com/tjfoc/gmsm v1.4.1
+	golang.org/x/crypto v0.0.0-20210921155107-089bfa567519
+	google.golang.org/protobuf v1.26.0
+	qchen.fun/fatchoy v0.0.0-00010101000000-000000000000
+)
